@@ -79,7 +79,7 @@ CHECKS = {
              "groups/PEL/consumers, module-aux sub-opcodes), all expiry/idle/freq prefixes. All words up to the stated lengths are parsed by the real "
              "Loader through a whole-buffer and a one-byte-per-read source and compared record by record (db, key, type, expiry ms, idle, freq, payload == "
              "type|file bytes|version|CRC64 computed by a bitwise reference), then EOF and footer. Pairs/triples expose state carried between records. "
-             "Hashes beyond 16 MiB are checked for the chunk records' concatenation.",
+             "Hashes beyond 16 MiB are checked for the chunk records' concatenation. In the chunked-hash cases the consumer renames every delivered record before it asks for the next piece (as the restore routine does for hash-tag replacement): later pieces must still carry the file's key and database.",
         note="trusts rdbgen/rdbcat (written from rdb.h/rdb.c, self-checking LZF) and crcref; header versions 1-4 are driven without a checksum trailer; bounds on word length and on the alphabet are stated in the evidence",
         rule="case = (word of alphabet items, header version, reader mode); states = distinct word prefixes (trie nodes) plus distinct dumped loader states (db, remainMember, lastReadCount, totMemberCount); transitions = parser runs; non-trivial = word contains at least one key or Lua record",
         parts=[dict(pkg="./pkg/rdb", harness=["rdb"], test="^TestVerif_C01$", shards=16, budget=dict(quick=90, thorough=1500), mem_kb=8*1024*1024,
@@ -157,7 +157,7 @@ CHECKS = {
              "INFO without role line, slave, slave with a misleading earlier line, master, master with the role line late) is the explorer's choice; the "
              "back-off sleeps run on testing/synctest's fake clock. Full product over all rounds for maxRetries 1 and 2, all-fail default with <=2/3 deviating "
              "answers for the production value 6. Oracle: success iff the final round contains a node answering master, that node is the chosen source, "
-             "source+replicas is exactly the known node list, failure only after maxRetries+1 rounds and exactly the expected back-off, receiver state unchanged. Third part (TestVerif_C20R): the same whole-Sync() harness with the master role moving between the attempts of one syncer object: every sequence of masters over 1, 2 and 3 attempts (39 scenarios). Every PSYNC must go to the node that is master at that moment, discovery must end (no abort), and the syncer's node must name the master as source and the two other nodes as replicas.",
+             "source+replicas is exactly the known node list, failure only after maxRetries+1 rounds and exactly the expected back-off, receiver state unchanged. Third part (TestVerif_C20R): the same whole-Sync() harness with the master role moving between the attempts of one syncer object: every sequence of masters over 1, 2 and 3 attempts (39 scenarios). Every PSYNC must go to the node that is master at that moment, discovery must end (no abort), and the syncer's node must name the master as source and the two other nodes as replicas. The real-factory part also runs with nodes that refuse connections (every subset pattern of one, two or three nodes down) with source.tls_enable off and on: with TLS the model nodes speak TLS with certificates of a harness CA the process trusts (SSL_CERT_FILE), through the tls.Dial seam. A reachable master must be found; when the only master is down the answer is an error after the retries, never a crash.",
         note="trusts testing/synctest's fake clock (A1); the fake connection implements redigo.Conn directly (no network layer involved in this property)",
         rule="case = one complete sequence of probe answers; states = distinct answer sequences; transitions = probes; non-trivial = every completed execution (each is judged against the expected outcome)",
         parts=[dict(pkg="./redis-shake/dbSync/slotsupervisor", harness=["slotsupervisor"], test="^TestVerif_C20$", shards=16, budget=dict(quick=60, thorough=900)),
@@ -210,7 +210,7 @@ CHECKS = {
              "writes) equal, in order, argument for argument and database for database, a pure fold of the stream; no MULTI/EXEC reaches the target when resume is off; "
              "everything is applied after 1.1 s of idleness; no abort. A fourth environment answer pauses 300 ms (less than the flush period) to produce trickling streams; at every quiescent point of the bubble clock every forwarded command whose bytes were delivered 500 ms or more earlier must have been applied. "
              "A further sweep (streams up to the all-schedules length, configurations without db filter in the quick tier) adds the answer 'the next command arrives inside the sender's timer case' through the verifTimerCase seam: "
-             "the command is written by the source and queued by the parser between the flush timer firing and the sender looking at its queue (inside a bubble the queue is otherwise always empty when a timer fires); there only the idle-stream bound is judged.",
+             "the command is written by the source and queued by the parser between the flush timer firing and the sender looking at its queue (inside a bubble the queue is otherwise always empty when a timer fires); there only the idle-stream bound is judged. Further sweeps run on a target connection that keeps the arguments of Send until Flush (model of the cluster connection) and with log.level=debug: directed streams with a 640-byte argument under every combination of the two, and all streams up to the all-schedules length with both.",
         note="trusts testing/synctest (A1), mredis (A5), redigo (A2); asynctimerchan=0 (A3). The cascade between two stimuli runs under the real Go scheduler; it is required to be deterministic and replayed traces must agree. Target stalls are not modelled in this check.",
         rule="execution = (stream, configuration, schedule); states = distinct executions; transitions = environment stimuli applied; non-trivial = the reference fold forwards at least one command",
         parts=[dict(pkg="./redis-shake/dbSync", harness=["dbsync"], test="^TestVerif_C03$", shards=16, gomaxprocs=2, budget=dict(quick=75, thorough=1500))],
@@ -308,7 +308,7 @@ CHECKS = {
              "2, 3, 8. The output is parsed back: the multiset of JSON lines must equal one line per string / list element with index / hash field / set member / zset "
              "member (score numerically equal), with db, type, expiry and base64 fields decoding to the exact bytes, plus one line per script, nothing else. For the "
              "worker hand-offs, decoderMain workers (1-3) run on channels the harness owns and every order of feeding entries and draining results is enumerated with "
-             "the workers run to quiescence in between. One RDB holds a set whose decoded text exceeds the 8 MB writer buffer next to small keys: 2 and 3 workers, feed/drain orders within 1 (thorough 2) deviations.",
+             "the workers run to quiescence in between. One RDB holds a set whose decoded text exceeds the 8 MB writer buffer next to small keys: 2 and 3 workers, feed/drain orders within 1 (thorough 2) deviations. The whole-command runs set source.rdb.parallel the way the start-up checks leave it for decode (the number of inputs; 1 for every second file).",
         note="the internal channel hand-offs of decode() itself are not interceptable without rewriting the function: they are covered by the owned-channel exploration of the worker function and by running the whole pipeline at several parallel degrees (stated limitation); streams and NaN scores are not decodable by design",
         rule="case = (file, parallel) or (entries, workers, feed/drain order); non-trivial = all (each compares the parsed output with the expected multiset)",
         parts=[dict(pkg="./redis-shake", harness=["run"], test="^TestVerif_C17$", shards=16, gomaxprocs=4, budget=dict(quick=75, thorough=600),
@@ -323,7 +323,7 @@ CHECKS = {
              "case, the checkpoint key and near misses of it, a key named lua) in each of the databases {0,1,2,10,11}: an RDB through the real syncRDBFile and "
              "restoreRDBFile (2 workers), a command stream with SELECTs, script commands in mixed case, OPINFO and a sentinel hello through the real parser and sender, "
              "a model source through the real rump executor. The set of (db,key) pairs that reached the model target must equal the reference predicate for that path; "
-             "Lua scripts / script commands pass exactly when filter.lua is off; OPINFO and sentinel hellos never arrive. The predicates are also compared directly. The incremental path is additionally crossed with target.db in {-1, every source database (filtered ones too), an unused one}; every SET carries its source database in its value, databases are re-selected in reverse order, and per (db,key) the number of forwarded SETs must equal the number sent. The full-sync, restore and rump paths are crossed with the same target.db values: every value carries a marker of its source database and the (db,key) decisions are read from the command log of the model target.",
+             "Lua scripts / script commands pass exactly when filter.lua is off; OPINFO and sentinel hellos never arrive. The predicates are also compared directly. The incremental path is additionally crossed with target.db in {-1, every source database (filtered ones too), an unused one}; every SET carries its source database in its value, databases are re-selected in reverse order, and per (db,key) the number of forwarded SETs must equal the number sent. The full-sync, restore and rump paths are crossed with the same target.db values: every value carries a marker of its source database and the (db,key) decisions are read from the command log of the model target. Rump is also run with scan.special_cloud=tencent_cluster (one logical database, the database list does not come from INFO keyspace) under every filter configuration.",
         note="key lists and db lists are used one kind at a time per dimension (the tool refuses whitelist and blacklist together for databases); quick crosses key and db lists on a diagonal, thorough fully",
         rule="execution = (path, configuration) carrying len(keys) x len(dbs) independent decisions (counted as transitions); non-trivial = configurations with at least one list set",
         parts=[dict(pkg="./redis-shake/dbSync", harness=["dbsync"], test="^TestVerif_C06$", shards=16, gomaxprocs=2, budget=dict(quick=75, thorough=900)),
